@@ -99,6 +99,10 @@ WITNESSES = [
               "user_data_len": 96, "nroots": 4, "used": 3}},
     {"kind": "witness", "name": "v21-digest", "family": "rw612", "target": "load_to_ram", "auth": "signed",
      "want": {"payload_class": "0x1FF", "content": "random", "tz": "enabled", "curve": "p256", "isk": False, "digest": "add", "nroots": 1}},
+    {"kind": "witness", "name": "v1-mixed-chain", "family": "mimxrt595s", "target": "xip", "auth": "signed",
+     "want": {"payload_class": "0x200", "content": "random", "tz": "enabled", "kind": "rsa4096", "depth": 3, "mixed": True, "leaf_kind": "rsa2048"}},
+    {"kind": "witness", "name": "dsc-short-app", "family": "mwct2012", "target": "xip", "auth": "crc",
+     "want": {"payload_class": "0x400", "content": "random"}},
     {"kind": "witness", "name": "vx", "family": "mc56f81868", "target": "xip", "auth": "signed",
      "want": {"payload_class": "0xE00", "content": "random", "add_hash": True}},
     {"kind": "witness", "name": "bca-crc", "family": "mc56f81768", "target": "xip", "auth": "crc",
@@ -114,12 +118,16 @@ def cases(tier, seed):  # noqa: ARG001
     for w in WITNESSES:
         yield dict(w)
     reps = set(G.representative_families())
-    per_rep, per_other = (3, 1) if tier == "quick" else (36, 24)
+    per_rep, per_other = (5, 1) if tier == "quick" else (30, 16)
     for fam in G.families():
         draws = per_rep if fam in reps else per_other
         for info in _protected(fam):
             # CRC images have one mechanism: fewer draws; signed / encrypted carry the key matrix
             d = draws if info["auth"] != "crc" else max(1, draws // 3)
+            if info["auth"] == "encrypted":
+                d *= 4
+            elif G.m(info["mixins"], "MixinHmacMandatory"):
+                d *= 2
             if tier == "quick" and fam not in reps and info["auth"] == "crc" and not G.m(info["mixins"], "ExportMixinCrcSignBca"):
                 continue
             for k in range(d):
@@ -213,6 +221,8 @@ def _run(case, ctx, b, SPSDKError):  # noqa: C901
         d.update(detail)
         ctx.violation(key, d)
 
+    # DSC classes keep vectors, BCA, FCF and certificates in the first 0xC00 bytes of the APPLICATION itself
+    dsc_short = b.has("MixinBcaTable") and len(b.app) < 0xC00
     del _SIGN_LOG[:]
     try:
         obj, data = G.export(b)
@@ -221,12 +231,9 @@ def _run(case, ctx, b, SPSDKError):  # noqa: C901
         ctx.refused([info["cls"], b.payload_class.split("/")[0]], core.exc_brief(e))
         return
     except struct.error as e:
-        if b.has("MixinBcaObsolete") and len(b.app) < 0xC00 and core.origin_of(e) == "repo":
-            # a DSC application shorter than its own header area: no image is produced (negative length word);
-            # not an accepted configuration - counted, reported as an observation
-            ctx.count("export_refused")
-            ctx.note("export_struct_error_on_too_short_dsc_application", core.exc_brief(e))
-            ctx.refused([info["cls"], b.payload_class.split("/")[0]], core.exc_brief(e))
+        if dsc_short and core.origin_of(e) == "repo":
+            # not validated: the negative length word escapes as struct.error instead of a refusal
+            viol("mbi-dsc-app-shorter-than-header-area", exception=core.exc_brief(e))
             return
         raise
     sign_log = list(_SIGN_LOG)
@@ -244,13 +251,30 @@ def _run(case, ctx, b, SPSDKError):  # noqa: C901
         reason = e.args[0]
         if hmac_offset_conflict(b):
             key = "mbi-encrypted-app-not-beyond-hmac-offset"
+        elif dsc_short:
+            key = "mbi-dsc-app-shorter-than-header-area"
         elif (b.cert and b.cert.get("v") == "v1" and b.cert.get("mixed") and reason.startswith("length word")
               and struct.unpack_from("<I", data, 0x20)[0] - len(data) == int(b.cert["kind"][3:]) // 8 - int(b.cert["leaf_kind"][3:]) // 8):
             # mechanism: signature size taken from the ROOT certificate, the signature is made by the LAST one
             key = "certv1-signature-size-from-root-certificate"
         else:
             key = f"rom-reject:{slug(reason)}"
-        viol(key, model=reason, file_len=len(data), header=core.hx(data[0x20:0x38]))
+        extra = {}
+        if "signature does not verify" in reason:
+            # localise with M-SIGN: was a different range handed to the signer than the one the format authenticates?
+            try:
+                lay = mbi_rom.walk(data, prof)
+                prov = [d for lvl, d, _k in sign_log if lvl == "provider"]
+                if lay.signed is not None and prov:
+                    img_call = prov[-1] if not (b.cert and b.cert["v"] == "vx") else max(prov, key=len)
+                    ctx.count("msign_compared")
+                    if img_call != lay.signed:
+                        key = "msign-signed-bytes-differ-from-authenticated-region"
+                        extra = {"signed_len": len(img_call), "authenticated_len": len(lay.signed),
+                                 "first_diff": next((hex(i) for i, (x, y) in enumerate(zip(img_call, lay.signed)) if x != y), "length")}
+            except core.RefReject:
+                pass
+        viol(key, model=reason, file_len=len(data), header=core.hx(data[0x20:0x38]), **extra)
         return
     hdr = rep.header
 
